@@ -1405,13 +1405,47 @@ func finish(c Case, out *vkit.Outcome, fs []finding) {
 	out.Fail = &vkit.Failure{Sig: sig, Observed: pick.observed + note, Expected: pick.expected}
 }
 
+// A composite literal prints as "[]int{...}"; "[]int {" (with a blank) at the
+// end of a for/if/switch line is a literal type followed by a block: the sign
+// of a header whose literal was cut off from the body (proposed/C05-1).
+var reCutOffHeader = regexp.MustCompile(`(?m)^\s*(\w+:\s*)?(for|if|switch|\})[^\n]*(\][\w.]+|\bstruct) \{\}?\s*(//[^\n]*|/\*[^\n]*)?$`)
+
+func hasCutOffHeader(formatted string) bool {
+	for _, m := range reCutOffHeader.FindAllString(formatted, -1) {
+		if !strings.Contains(m, "func") {
+			return true
+		}
+	}
+	return false
+}
+
+var reMinusMinus = regexp.MustCompile(`-\s+-`)
+
+// attribute replaces an unspecific construct name by the name of a defect
+// whose unmistakable trace is in the formatted text (the first token
+// difference is not always the one that matters).
+func attribute(where, src, formatted, compileErr string) string {
+	switch {
+	case strings.HasPrefix(where, "composite-literal-in-control-header"), where == "unary-minus-twice",
+		strings.HasPrefix(where, "struct-type-body"), strings.HasPrefix(where, "composite-literal-body"):
+		return where
+	case strings.Contains(compileErr, `Special "--"`) && reMinusMinus.MatchString(src):
+		return "unary-minus-twice"
+	case hasCutOffHeader(formatted) && !hasCutOffHeader(src):
+		return "composite-literal-in-control-header"
+	}
+	return where
+}
+
+var reUnterminated = regexp.MustCompile("(?m)//[^\n]*[;:,.{`]\\s*\n(\\s*\n)*\\s*\\{")
+
 // hasEmptyStmt reports whether the "{}" token occurs where a statement starts.
 func hasEmptyStmt(raw []tok) bool {
 	for i, t := range raw {
 		if !isSpecial(t, "{}") {
 			continue
 		}
-		if i == 0 || isSpecial(raw[i-1], ";") || isSpecial(raw[i-1], "{") || isSpecial(raw[i-1], "}") || isSpecial(raw[i-1], ":") {
+		if i == 0 || raw[i-1].line < t.line || isSpecial(raw[i-1], ";") || isSpecial(raw[i-1], "{") || isSpecial(raw[i-1], "}") || isSpecial(raw[i-1], ":") {
 			return true
 		}
 	}
@@ -1551,6 +1585,15 @@ func oracle(c Case) vkit.Outcome {
 				}
 			}
 		}
+		switch where {
+		case "composite-literal-in-control-header", "struct-type-body":
+		default:
+			if reUnterminated.MatchString(c.Src) {
+				// "x := y // note:" + "{": the comment keeps the tokenizer from
+				// ending the statement, and "y {" reads as a literal
+				where = "block-after-comment-ending-in-continuation-character"
+			}
+		}
 		add("format-error", where, "format error: "+msg, "formatting succeeds on a source the compiler accepts")
 		finish(c, &out, fs)
 		return out
@@ -1576,12 +1619,12 @@ func oracle(c Case) vkit.Outcome {
 		case r1.Hung:
 			add("not-compiling", where+" (does not return)", fmt.Sprintf("original compiled and ran in %v; formatted source did not return after %v and ignores interrupts\nformatted:\n%s", r0.Elapsed, limit, f1), "the formatted file compiles and behaves the same")
 		case r1.CompileErr != "":
-			add("not-compiling", whereCompileError(where, f1, r1.CompileErr), "formatted source does not compile: "+r1.CompileErr+"\nformatted:\n"+f1, "the formatted file compiles")
+			add("not-compiling", attribute(whereCompileError(where, f1, r1.CompileErr), c.Src, f1, r1.CompileErr), "formatted source does not compile: "+r1.CompileErr+"\nformatted:\n"+f1, "the formatted file compiles")
 		case r1.TimedOut:
 			add("behaviour", where+" (nontermination)", fmt.Sprintf("original finished in %v, formatted source still running after %v\nformatted:\n%s", r0.Elapsed, limit, f1), "same output and outcome")
 		default:
 			if a, b := outcomeOf(r0), outcomeOf(r1); a != b {
-				add("behaviour", where, "original:\n"+clipS(a, 600)+"\nformatted run:\n"+clipS(b, 600)+"\nformatted source:\n"+f1, "same output and outcome")
+				add("behaviour", attribute(where, c.Src, f1, ""), "original:\n"+clipS(a, 600)+"\nformatted run:\n"+clipS(b, 600)+"\nformatted source:\n"+f1, "same output and outcome")
 			}
 		}
 	case "corpus-test":
@@ -1618,7 +1661,7 @@ func oracle(c Case) vkit.Outcome {
 			case a == "TIMEOUT" || b == "TIMEOUT" || strings.HasPrefix(a, "CLI-ERROR") || strings.HasPrefix(b, "CLI-ERROR"):
 				out.Inconclusive = "corpus-test: cli run did not finish"
 			case a != b:
-				add("behaviour", where, "`ego test` of original and of formatted file differ:\n"+clipS(diffLines(a, b), 1200), "same result lines from `ego test`")
+				add("behaviour", attribute(where, c.Src, f1, ""), "`ego test` of original and of formatted file differ:\n"+clipS(diffLines(a, b), 1200), "same result lines from `ego test`")
 			default:
 				out.Labels = append(out.Labels, "corpus: compared with ego test")
 			}
@@ -1643,8 +1686,11 @@ func oracle(c Case) vkit.Outcome {
 		add("idempotence", "reformat-error "+where, "formatting the formatted text fails: "+err.Error()+"\nformatted:\n"+f1, "fmt(fmt(x)) == fmt(x)")
 	} else if f2 != f1 {
 		what := describeTextDiff(f1, f2)
-		if (what == "blank-lines" || what == "layout") && hasEmptyStmt(raw) {
-			// an empty statement at the top level prints as an empty line
+		if what != "comment-indentation" && what != "trailing-comment-moves" && hasCutOffHeader(f1) && !hasCutOffHeader(c.Src) {
+			what = "tokens composite-literal-in-control-header"
+		} else if what != "comment-indentation" && what != "trailing-comment-moves" && hasEmptyStmt(raw) {
+			// an empty statement prints as nothing on a line of its own (an
+			// empty line at the top level, a comment attached to nothing, ...)
 			what = "whitespace-only-line"
 		}
 		add("idempotence", what, "fmt(fmt(x)) != fmt(x):\n"+clipS(diffLines(f1, f2), 1200), "fmt(fmt(x)) == fmt(x)")
@@ -1864,9 +1910,37 @@ func headerHasComposite(raw []tok, first, last int) bool {
 			if braceIsComposite(raw, k, depth == 0) {
 				return true
 			}
+			if isFuncLiteralBody(raw, k) {
+				// skip the body of a function literal in the header
+				d := 0
+				for ; k <= last && k < len(raw); k++ {
+					if isSpecial(raw[k], "{") {
+						d++
+					} else if isSpecial(raw[k], "}") {
+						d--
+						if d == 0 {
+							break
+						}
+					}
+				}
+				continue
+			}
 			if depth == 0 {
 				return false
 			}
+		}
+	}
+	return false
+}
+
+// isFuncLiteralBody: the "{" at raw[k] opens the body of "func(...) T {".
+func isFuncLiteralBody(raw []tok, k int) bool {
+	for j := k - 1; j >= 0 && j > k-24; j-- {
+		if isSpecial(raw[j], ";") || isSpecial(raw[j], "{") || isSpecial(raw[j], "}") {
+			return false
+		}
+		if raw[j].s == "func" && raw[j].cls != tokenizer.StringTokenClass {
+			return j+1 < len(raw) && isSpecial(raw[j+1], "(")
 		}
 	}
 	return false
